@@ -4,11 +4,14 @@
 # Usage: tools/baseline_check.sh [pkg-pattern ...]   (default ./...)
 # Everything lives under a temp dir that is removed afterwards.
 set -e
+PATCH=${PATCH:+$(realpath "$PATCH")}
 export GOFLAGS=-mod=mod GOPROXY=off GOSUMDB=off GOTOOLCHAIN=local
 T=$(mktemp -d /tmp/baseline-XXXXXX)
 trap 'git -C /repo worktree remove --force "$T/wt" >/dev/null 2>&1; rm -rf "$T"' EXIT
 git -C /repo worktree add -q --detach "$T/wt" HEAD
 PKGS=${*:-./...}
+# optional: PATCH=<file> applies a patch (-p1) to the scratch checkout first (used to judge seeded changes against the stable baseline)
+if [ -n "${PATCH:-}" ]; then (cd "$T/wt" && git apply "$(realpath "$PATCH")") || exit 2; fi
 (cd "$T/wt" && go test -json -vet=off -count=1 -timeout 25m $PKGS > "$T/out.json" 2>"$T/err.txt") || true
 python3 - "$T/out.json" <<'EOF'
 import json, sys
